@@ -145,6 +145,13 @@ pub fn oracle_program(tag: &str, pre: Vec<u8>, ans: u32) {
         o.borrow_mut().table.insert((t, pre), ans);
     });
 }
+/// Run `f` without leaving a trace in the query log (harness-side side computations).
+pub fn oracle_unlogged<T>(f: impl FnOnce() -> T) -> T {
+    let n = ORACLE.with(|o| o.borrow().log.len());
+    let r = f();
+    ORACLE.with(|o| o.borrow_mut().log.truncate(n));
+    r
+}
 pub fn oracle_take_log() -> Vec<Query> {
     ORACLE.with(|o| std::mem::take(&mut o.borrow_mut().log))
 }
